@@ -149,3 +149,25 @@ pub fn lab7() {
         }
     }
 }
+
+pub fn lab8() {
+    let want = std::env::var("LAB_DESC").unwrap_or_default();
+    let lo: u64 = std::env::var("LAB_LO").ok().and_then(|s| s.parse().ok()).unwrap_or(0);
+    let hi: u64 = std::env::var("LAB_HI").ok().and_then(|s| s.parse().ok()).unwrap_or(900_000);
+    for i in lo..hi {
+        if i % 3 != 1 {
+            continue;
+        }
+        let seed = crate::util::mix(1, 0xC18_0000 + i);
+        let made = c18::scenario_e(seed);
+        if made.desc.contains(&want) {
+            println!("{} seed={seed} i={i}", made.desc);
+            for l in made.world.trace.render(0, 6000) {
+                if l.contains(" api ") || l.contains("ifedit") || l.contains(" ev#") || (l.contains(" tx ") && (l.contains("h2.local") || l.contains("svc2"))) {
+                    println!("  {}", crate::util::prefix(&l, 330));
+                }
+            }
+            break;
+        }
+    }
+}
